@@ -218,7 +218,8 @@ def run(ctx):
             w = gen_chain(rng)
             hist["chain workspace"] += 1
         else:
-            w = l3gen.gen_workspace(rng, npatches=rng.randint(2, 7), fail_prob=0.55)
+            # several failing patches: which one a worker meets first must not matter
+            w = l3gen.gen_workspace(rng, npatches=rng.randint(2, 7), fail_prob=0.6, nfail=rng.choice([1, 2, 3]))
         fps = file_patches(ctx, w)
         if not fps:
             continue          # C06 speaks of workspaces whose patches all parse
